@@ -1500,6 +1500,10 @@ class Interp:
             raise Undecided("getattr")
         if name == "bool":
             return self.truth(ev(args[0]))
+        if name in ("WeakKeyDictionary", "WeakValueDictionary", "OrderedDict") and not args and not e.keywords:
+            return {}  # within one interpreted scenario every key / value stays alive
+        if name == "WeakSet" and not args:
+            return set()
         if name == "str" and isinstance(f, ast.Name) and "str" not in self.env and len(args) == 1:
             v = ev(args[0])
             if isinstance(v, str):
